@@ -80,6 +80,15 @@ var positions = []struct {
 	{"select_item", "SELECT %s FROM t1", 0, true},
 	{"insert_values", "INSERT INTO t1 VALUES ( 1 , %s )", 0, true},
 	{"update_set", "UPDATE t1 SET a = %s WHERE b = 1", 0, true},
+	{"merge_on", "MERGE INTO t1 USING t2 ON %s WHEN MATCHED THEN DELETE", 0, false},
+	{"merge_on_and", "MERGE INTO t1 USING t2 ON t1 . a = t2 . a AND %s WHEN MATCHED THEN DELETE", 0, false},
+	{"merge_when_condition", "MERGE INTO t1 USING t2 ON t1 . a = t2 . a WHEN MATCHED AND %s THEN DELETE", 1, false},
+	{"merge_not_matched_condition", "MERGE INTO t1 USING t2 ON t1 . a = t2 . a WHEN NOT MATCHED AND %s THEN INSERT ( a ) VALUES ( 1 )", 1, false},
+	{"merge_source_subquery", "MERGE INTO t1 USING ( SELECT a FROM t2 WHERE %s ) s ON t1 . a = s . a WHEN MATCHED THEN DELETE", 1, false},
+	{"merge_update_set", "MERGE INTO t1 USING t2 ON t1 . a = t2 . a WHEN MATCHED THEN UPDATE SET b = %s", 1, true},
+	{"merge_insert_values", "MERGE INTO t1 USING t2 ON t1 . a = t2 . a WHEN NOT MATCHED THEN INSERT ( a , b ) VALUES ( 1 , %s )", 1, true},
+	{"view_body", "CREATE VIEW v1 AS SELECT a FROM t1 WHERE %s", 1, false},
+	{"materialized_view_body", "CREATE MATERIALIZED VIEW mv1 AS SELECT a FROM t1 WHERE %s", 1, false},
 }
 
 // union positions: %s is where "UNION SELECT ..." is appended to a query
@@ -271,7 +280,7 @@ func relayout(rt *rapid.T, tmpl, payload string, cond bool) string {
 }
 
 func TestScanContextClosed(t *testing.T) {
-	hx.Rule("scan_context_closed", "documented payloads (3 tautologies, 6 time-delay/dangerous calls, 4 UNION probes) x condition/expression positions of the grammar (34 for conditions/calls, 6 for UNION probes, nesting depth up to 2) x layouts (whitespace, keyword/function letter case, redundant parentheses) x 4 severity thresholds; the class/severity reported for the payload as top-level WHERE condition must be reported at every position and layout; thresholds filter exactly; counts equal the list; the tree is not mutated; A,B,A scans agree; non-trivial = position is not the base and nesting depth >= 1; distinct = payload x position x layout hash")
+	hx.Rule("scan_context_closed", "documented payloads (3 tautologies, 6 time-delay/dangerous calls, 4 UNION probes) x condition/expression positions of the grammar (43 for conditions/calls incl. MERGE ON / WHEN conditions, SET and INSERT values and view bodies, 6 for UNION probes, nesting depth up to 2) x layouts (whitespace, keyword/function letter case, redundant parentheses) x 4 severity thresholds; the class/severity reported for the payload as top-level WHERE condition must be reported at every position and layout; thresholds filter exactly; counts equal the list; the tree is not mutated; A,B,A scans agree; non-trivial = position is not the base and nesting depth >= 1; distinct = payload x position x layout hash")
 	scanCheck.Rapid(t, hx.N(60000, 600000), func(rt *rapid.T) ScanCase {
 		p := rapid.SampledFrom(payloads).Draw(rt, "payload")
 		var c ScanCase
